@@ -246,6 +246,32 @@ def created_once(res, prog, c):
                             res.violation('C16.6', 'C16.6|%s|callback-writes-handle' % base.split('::')[-2], g, s_.get('line'), 'the data callback stores %s into the captured temp-file handle (it may only give it up with None)' % rv[:100])
 
 
+def raw_fetch_kinds(res, prog, c):
+    """C16.7: the symbol cache entry of a module is written only after its body parsed.  fetch_lookup persists a body as
+    it comes; it must therefore never be handed the lookup of FileKind::BreakpadSym, whose cache path is the one
+    locate_symbols reads symbol files from."""
+    res.rule('C16.7', 0, floor=1, note='the raw download path (fetch_lookup) is not used for FileKind::BreakpadSym, whose cache entry is the parsed symbol cache')
+    lk = c.fn('breakpad_symbols::lookup')
+    sym_arm = False
+    if lk is not None:
+        for b, t in lk.calls():
+            if lk.callee(t) == 'breakpad_symbols::breakpad_sym_lookup':
+                sym_arm = True
+    for g in c.fns:
+        if '::http::' not in g.path:
+            continue
+        for b, t in g.calls():
+            if (g.callee(t) or '') not in ('breakpad_symbols::http::fetch_lookup', 'breakpad_symbols::http::fetch_cab_lookup'):
+                continue
+            res.rule('C16.7', 1)
+            a = show(g.expand(g.operand_tree(t['args'][2])))
+            if 'breakpad_symbols::lookup ' in a and sym_arm:
+                facts = [r for r, gd, sx in panics.dominating_facts(g, b)]
+                guarded = any('file_kind' in show(r[1]) and 'BreakpadSym' in (show(r[2]) if len(r) > 2 and isinstance(r[2], tuple) else str(r[2] if len(r) > 2 else '')) for r in facts if len(r) > 1)
+                if not guarded:
+                    res.violation('C16.7', 'C16.7|raw-sym|%s' % (g.callee(t).split('::')[-1]), g, t.get('line'), '%s persists whatever the server sends at lookup(module, file_kind).cache_rel; for FileKind::BreakpadSym that is the path of the symbol cache entry, so locate_file(BreakpadSym) can store an unparsed (e.g. HTML) body where locate_symbols will read it' % g.callee(t).split('::')[-1])
+
+
 def run(tier, t0):
     res = harness.Result(PID)
     prog = program()
@@ -256,6 +282,7 @@ def run(tier, t0):
     cache_first(res, prog, c)
     url_roundtrip(res, prog, c)
     created_once(res, prog, c)
+    raw_fetch_kinds(res, prog, c)
     # the cache tee sees exactly the consumed bytes: shared rule with C10.1 (a dropped callback truncates the cache entry)
     from . import C10
     res.rule('C10.1', 0, floor=2, note='(shared with C10) every consume(n) in parse_async is preceded by callback(&buf.data()[..n])')
